@@ -96,20 +96,22 @@ impl LibraryPath {
     ///
     /// The first component is the leftmost token separated by `::`.
     pub fn first(&self) -> &str {
+        // a path with a single component has no delimiter and is its own first component
         self.path
             .split_once(Self::PATH_DELIM)
-            .expect("a valid library path must always have at least one component")
-            .0
+            .map(|(first, _)| first)
+            .unwrap_or(&self.path)
     }
 
     /// Returns the last component of the path.
     ///
     /// The last component is the rightmost token separated by `::`.
     pub fn last(&self) -> &str {
+        // a path with a single component has no delimiter and is its own last component
         self.path
             .rsplit_once(Self::PATH_DELIM)
-            .expect("a valid library path must always have at least one component")
-            .1
+            .map(|(_, last)| last)
+            .unwrap_or(&self.path)
     }
 
     /// Returns the number of components in the path.
